@@ -41,6 +41,12 @@ CHECKS={
  "C20": dict(tech="same generated/broken workspaces x full query sweep; validity-predicate oracle over every reported range", engine="sandbox",
    text="Exploration: every range of every answer of the sweep (about 1M ranges quick) is checked for workspace membership, bounds, char boundaries, focus inside full range, single-token coverage for name-like kinds, token alignment for completion replacement ranges, empty diagnostics only at token boundaries.",
    note="Token ranges from the repository's lexer (C01 ties the tree to it).", ref="DESIGN.md §5 C20"),
+ "C11": dict(tech="proptest-generated edit histories (stateful: vec of op batches + interpreter against a plain model); differential oracle against two fresh instances queried in opposite orders", engine="sandbox",
+   text="Exploration: 2.5k/50k histories of up to 8/30 change batches (edits, whole-file replacement, item added/removed at the top, file added/removed, dependency edge, is_local, roots re-sent, query bursts) plus LRU-pressure workspaces of 135-155 files; after every (2nd) batch all query kinds at sampled offsets of all live files must agree between the long-lived host, a fresh host and a second fresh host queried in reverse order.",
+   note="Changes are batched the way the server's Vfs batches them; which panic a query dies with is not compared (C10's subject), that one side panics and the other answers is.", ref="DESIGN.md §5 C11"),
+ "C12": dict(tech="proptest-generated schedules driving real OS threads (one writer, 1-4 readers per version) with per-version precomputed answers; invariant over the history of reader results + liveness watchdog", engine="threads",
+   text="Exploration: 1k/20k seeded schedules over workspaces of 13-51 files whose texts embed the version; readers loop over ~50 queries on their snapshot and may stop only on Cancelled or after apply_change returned; every result must be Cancelled or exactly the precomputed answer for the snapshot's own (version, package graph) state; content changes and graph-only changes are interleaved; apply_change must return (45 s watchdog, confirmed by replay); a snapshot taken afterwards answers for the new state.",
+   note="The OS owns the scheduler: rare interleavings stay unexplored; the causal structure of the oracle makes swallowed cancellation, retry-on-cancel and leaked snapshots fail deterministically.", ref="DESIGN.md §5 C12"),
 }
 
 NOT_YET={}
@@ -74,6 +80,7 @@ def main():
       "engines":[
         {"name":"inproc","path":"/verif/harness","serves_properties":[p for p,c in CHECKS.items() if c["engine"]=="inproc"],"kind_free_text":"Rust harness linked against syntax/ide/glas(verif); proptest-generated and -shrunk choice streams + exhaustive enumerations; one worker process per shard"},
         {"name":"sandbox","path":"/verif/harness","serves_properties":[p for p,c in CHECKS.items() if c["engine"]=="sandbox"],"kind_free_text":"same harness, cases announced (MARK) so that a worker killed by a signal or stalled is attributed to a case and confirmed alone"},
+        {"name":"threads","path":"/verif/harness","serves_properties":[p for p,c in CHECKS.items() if c["engine"]=="threads"],"kind_free_text":"real OS threads around one ide::AnalysisHost with stream-chosen yields/sleeps; in-worker watchdog for liveness"},
         {"name":"lsp","path":"/verif/harness","serves_properties":[p for p,c in CHECKS.items() if c["engine"]=="lsp"],"kind_free_text":"black-box JSON-RPC client over stdio against the real glas binary built from /repo"},
       ],
       "checks":checks,
